@@ -1,0 +1,19 @@
+//go:build verif
+
+// Contracts for package smpeer, read by /verif/engine (govc). Comment-only.
+
+package smpeer
+
+//@ func FromContext(ctx) (meta, ok)
+//@   property C10 C11
+//@   pure
+//@   requires ctx != nil
+//@   ensures [C10] present_iff_stored: ok <==> typeis(ctxvalue(ctx, key(0)), *Metadata)
+//@   ensures [C11] the_stored_one: ok ==> meta == ctxvalue(ctx, key(0)).(*Metadata)
+//@ end
+//@
+//@ func NewContext(ctx, metadata) (r)
+//@   property C10 C11
+//@   modifies
+//@   ensures [C10] stored: r != nil && typeis(ctxvalue(r, key(0)), *Metadata) && ctxvalue(r, key(0)).(*Metadata) == metadata
+//@ end
